@@ -166,6 +166,20 @@ theorem cvrp_generate_cert_of_draws (ρ : String → Int) (hg : Guard.accepts (c
     CVRP.GenCert n (ρ "max_capacity") (ρ "max_demand") (CVRP.generate n (ρ "max_capacity") cd dd) :=
   cvrp_generate_cert_of_ctor ρ hg n cd dd (cvrp_draws_valid ρ n hn hm cd dd hc hd)
 
+/-- (audit r4 #1) what the source draws IS the support `CVRP.validUniformCode` — for EVERY `max_demand`, also `≤ 0`, where the
+documented support `validUniform` is empty: the two descriptions of the code's support (hand-written in Env/CVRP/Model.lean, derived from
+the `randint` call by the translator) agree -/
+theorem cvrp_draws_validCode (ρ : String → Int) (n : Nat) (hn : ρ "num_nodes" = n)
+    (cd : List (List Rat)) (dd : List Int)
+    (hc : inSupport (drawOf "cvrp.UniformGenerator.coordinates") ρ (.r2 cd))
+    (hd : inSupport (drawOf "cvrp.UniformGenerator.demands") ρ (.i1 dd)) :
+    CVRP.validUniformCode n (ρ "max_demand") cd dd := by
+  have h1 := cvrp_coordinates_draw_tied ρ cd hc
+  have h2 := cvrp_demand_draw_tied ρ dd hd
+  refine ⟨by omega, by omega, h1.2, fun d hdm => ?_⟩
+  have := h2.2 d hdm
+  omega
+
 /-- the documented range `[1, max_demand]` is NOT what is drawn: `max_demand` itself never occurs (for `max_demand ≥ 2`) -/
 theorem cvrp_max_demand_never_drawn (ρ : String → Int) (hm : 2 ≤ ρ "max_demand") (dd : List Int)
     (hd : inSupport (drawOf "cvrp.UniformGenerator.demands") ρ (.i1 dd)) : ρ "max_demand" ∉ dd := by
